@@ -10,3 +10,4 @@ import PyIkev2.Props.C12
 #print axioms PyIkev2.Props.C12.c12_subset_trans
 #print axioms PyIkev2.Props.C12.c12_concrete_responder_narrows_and_mode
 #print axioms PyIkev2.Props.C12.c12_concrete_initiator_never_widens
+#print axioms PyIkev2.Props.C12.c12_concrete_both_ends_hold_mirrored_selectors_and_the_same_mode
